@@ -269,6 +269,22 @@ def _run_main(ctx):
             ctx.violate(case, "infer_types touched a node that is not reachable from an Input (after rewiring)",
                         {"site": "infer_types", "what": "unreachable-touched", "edit": "rewire"},
                         observed={"node": must_not, "before": before, "after": after[must_not]})
+    # corner shapes in front of nodes typed by inference: the rank-0 (empty) shape, unit axes, a single axis - with every
+    # sign convention of the Flatten dims (termination is observed under the watchdog)
+    for _ in range(ctx.n(30, 150)):
+        sh = rng.choice([[], [], [1], [1, 1], [5], [1, 3, 1]])
+        sd = rng.choice([0, 0, -1, 1, -2]); ed = rng.choice([-1, -1, 0, -2, 1])
+        case = {"op": "corner_shape_flatten", "shape": sh, "start_dim": sd, "end_dim": ed}
+        ctx.case(case); ctx.count("corner_shape_flatten")
+        try:
+            g = nir.NIRGraph(nodes={"in": nir.Input(np.array(sh, dtype=np.int64)), "f": nir.Flatten(None, sd, ed),
+                                    "out": nir.Output(None)}, edges=[("in", "f"), ("f", "out")])
+        except Exception:
+            ctx.count("construct_rejected"); continue
+        try:
+            bounded_infer(g, seconds=5)
+        except Hang:
+            ctx.violate(case, "infer_types did not terminate", {"site": "infer_types", "what": "hang", "edit": "corner-shape"})
     # depth: a single path far longer than any recursion limit
     for depth in ([1500] if ctx.tier == "quick" else [1500, 4000]):
         chain = [["in", {"type": "Input", "kwargs": [["input_type", {"l": [gen.pyint(4)]}]]}]]
